@@ -15,7 +15,7 @@ def main():
             continue
         m = json.load(open(mp))
         n = int(sid.split('-')[1])
-        rnd = 1 if n <= 2 else 2 if n <= 4 else 3 if n <= 6 else 4 if n <= 8 else 5
+        rnd = (n + 1) // 2
         rules = []
         for p, reps in sorted(m.get('detected_by', {}).items()):
             for r in reps:
